@@ -111,7 +111,8 @@ def run(script):
                 c.add_track(track_of(t))
             rets.append(ret(s.play_Composition(c, op[2], op[3])))
         elif k == "cc":
-            rets.append(ret(s.control_change(op[1], op[2], op[3])))
+            fl_ = lambda x: float(x) if isinstance(x, F) else x
+            rets.append(ret(s.control_change(op[1], fl_(op[2]), fl_(op[3]))))
         elif k == "modulation":
             rets.append(ret(s.modulation(op[1], op[2])))
         elif k == "main_volume":
@@ -122,7 +123,33 @@ def run(script):
             raise HarnessError("unknown op %r" % (k,))
     return [rets, s.trace, obs[0].trace, obs[1].trace, [len(obs[0].high), len(obs[1].high)]]
 
-IMPL = {"seq.run": run}
+def isolated(notes):
+    """two sequencers, one observer each: what one plays must reach only its own observer"""
+    from mingus.midi.sequencer import Sequencer
+    from mingus.midi.sequencer_observer import SequencerObserver
+    class Rec(Sequencer):
+        def init(self): self.trace = []
+        def play_event(self, note, channel, velocity): self.trace.append(["play", note, channel, velocity])
+        def stop_event(self, note, channel): self.trace.append(["stop", note, channel])
+        def sleep(self, seconds): pass
+    class Obs(SequencerObserver):
+        def __init__(self): self.trace = []
+        def play_int_note_event(self, int_note, channel, velocity): self.trace.append(["play", int_note, channel, velocity])
+        def stop_int_note_event(self, int_note, channel): self.trace.append(["stop", int_note, channel])
+    a, b = Rec(), Rec()
+    oa, ob = Obs(), Obs()
+    a.attach(oa); b.attach(ob)
+    for n in notes:
+        a.play_Note(mk_note(n)); a.stop_Note(mk_note(n))
+    leak_ab = [len(ob.trace), len(b.trace)]
+    na = len(oa.trace)
+    for n in notes:
+        b.play_Note(mk_note(n))
+    c = Rec()                                   # a sequencer created later starts with no observers
+    c.play_Note(mk_note(notes[0]))
+    return [leak_ab, len(oa.trace) - na, len(ob.trace) - leak_ab[0] - len(notes), [len(oa.trace) - na, len(c.trace)]]
+
+IMPL = {"seq.run": run, "seq.isolated": isolated}
 
 PARALLEL = ("bars", "tracks", "composition")
 
@@ -162,8 +189,8 @@ def has_model(c):
 
 # ------------------------------------------------------------------ cases
 
-def S(script, tag):
-    return Case("seq.run", [script], tag=tag)
+def S(script, tag, model=True):
+    return Case("seq.run", [script], tag=tag, model=model)
 
 VALS = [1, 2, 4, 8, 16, 32, 3, 6, 12, 5, 7, 4 / 1.5, 8 / 1.5]
 DY = [1, 2, 4, 8, 16]
@@ -213,6 +240,10 @@ def cases(tier, rng):
         for v in edge:
             out.append(S([["attach", 0], ["cc", 3, c, v], ["modulation", 2, v], ["main_volume", 15, c]], "cc"))
     # observers
+    # numbers just outside 0..128 that are not integers (oracle only: the Lean model's control numbers are integers)
+    for c, v in ((7, F(257, 2)), (7, F(-1, 2)), (F(257, 2), 64), (F(-1, 4), 64), (F(513, 4), F(513, 4)), (7, F(1025, 8))):
+        out.append(S([["attach", 0], ["cc", 3, c, v]], "cc/fractional", model=False))
+    out.append(Case("seq.isolated", [[A, B]], tag="instances", model=False))
     body = [["play_note", A], ["stop_note", A], ["instr", 2, 42, 0], ["cc", 1, 7, 100]]
     out.append(S(body, "observer:none"))
     out.append(S([["attach", 0]] + body, "observer:attached"))
@@ -444,6 +475,10 @@ def first_diff(a, b):
     return ("%d events" % len(a), "%d events" % len(b))
 
 def oracle(c, obs):
+    if c["fn"] == "seq.isolated":
+        if isinstance(obs, Err):
+            return "two sequencers side by side raised %s" % obs.name
+        return None if obs == [[0, 0], 0, 0, [0, 1]] else "events of one sequencer reached another sequencer's observer (or hooks): %s" % (obs,)
     script = c["args"][0]
     if isinstance(obs, Err):
         par = [i for i, op in enumerate(script) if op[0] in PARALLEL]
